@@ -254,6 +254,9 @@ LINES = [VALID, VALID + b"t" * 2000, b"titan://example.org/big.bin;size=1536;mim
          b"titan://example.org/up.txt;size=-1\r\nx", b"titan://example.org/up.txt\r\n",
          b"titan://example.org/mirror/titan://other.host/f.gmi;size=4;mime=text/plain\r\nabcd", b"titan://example.org/pub;v/../admin/x.gmi;size=3;mime=text/plain\r\nabc",
          b"titan://example.org/caf\xc3\xa9/\xe6\x97\xa5.gmi;size=2;mime=text/plain\r\nok", b"gemini://example.org/caf\xc3\xa9/\xe6\x97\xa5\xe6\x9c\xac?q=\xf0\x9f\x98\x80\r\n"]
+# the limit itself: a line of exactly 1024 bytes with its CRLF (accepted at every segmentation, also when CR and LF arrive in
+# different reads and when every byte is a read of its own) and one byte more (refused)
+LINES += [b"gemini://example.org/" + b"a" * 1001 + b"\r\n", b"gemini://example.org/" + b"a" * 1002 + b"\r\n"]
 # internationalised host names, with and without an IDNA form (empty label, over-long label, U+FFFD, mixed direction)
 LINES += [("gemini://" + h + "/p?q=1\r\n").encode("utf-8") for h in ("b\u00fccher.example", "\ufffd.example", "a..\u00e9.example", "\u00e9" * 70 + ".example", "a\u05d0.example", "\u00e9.")]
 BEHAVIOURS = ["ok", "bytes", "bare-cr-in-error", "raise-cr", "body-on-51", "lf-in-meta", "crlf-in-error", "long-meta", "status-7", "status-99", "surrogate-body", "surrogate-meta", "raise", "raise-lookup"]
